@@ -119,6 +119,14 @@ func (node *Node) processUnconfirmedTx(ctx context.Context, tx handlers.TxData) 
 		return nil // tx already processed
 	}
 
+	if !tx.Trusted && node.memPool.IsTrusted(ctx, *hash) {
+		// The trusted node announced the tx after it was added to the mempool above, when the tx
+		// repo didn't have it yet to mark.
+		if err := node.txs.MarkTrusted(ctx, *hash); err != nil {
+			return errors.Wrap(err, "mark trusted")
+		}
+	}
+
 	// logger.Debug(ctx, "Tx repo (added %t) (newly safe %t) : %s", added, newlySafe, hash.String())
 
 	isNew := false
